@@ -413,6 +413,12 @@ func runC19(w *fw.W) {
 				[]string{"it := [1]._iter\nit.next\nit.try.next\nit.try.next", "[]._iter.try.next.err.p"}, "it2 := [7]._iter\nit2.next.p\nit2.next"},
 			{"many positional arguments, then the same arity again",
 				[]string{"{[\\9, \\12, \\0.len]}(1, 2, 3, 4, 5, 6, 7, 8, 9, 10, 11, 12).p"}, "{[\\9, \\12, \\0.len]}(1, 2, 3, 4, 5, 6, 7, 8, 9, 10, 11, 12).p\n{[\\13]}(1, 2, 3, 4, 5, 6, 7, 8, 9, 10, 11, 12)"},
+			{"the same text matched on a plain str, then on a value of a Str descendant (and back)",
+				[]string{"\"2020-01-02\".match(`(\\d+)-(\\d+)`).p\n\"ab\".sub(`a`, \"x\").p\n(\"a,b\" / \",\").p"},
+				"D := Str.bear({era: m{\"era:\" + self}})\ng := D.new(\"2020-01-02\").match(`(\\d+)-(\\d+)`)\n[g[1].era, D.new(\"ab\").sub(`a`, \"x\").era, (D.new(\"a,b\") / \",\")[0].era].p\n\"2020-01-02\".match(`(\\d+)-(\\d+)`)[1].era"},
+			{"conversions and arithmetic on a descendant, then on plain values",
+				[]string{"DI := Int.bear({tag: m{\"i\"}})\nd := DI.new(5)\n[(d + 1).tag, (d * 2).tag, d.S, d.F, -d].p\nDS := Str.bear({tag: m{\"s\"}})\n[(DS.new(\"a\") + \"b\").tag, DS.new(\"a\").uc.tag, DS.new(\"ab\").rev.tag].p"},
+				"[(5 + 1).try.tag.err.type, (5 * 2).try.tag.err.type, (\"a\" + \"b\").try.tag.err.type, \"a\".uc.try.tag.err.type].p\n\"ab\".rev.tag"},
 			{"a function literal with a default evaluated twice in different scopes",
 				[]string{"mk := {|g| {|nm, hello: g| hello + nm}}\nmk(\"Hi \")(\"A\").p"}, "mk := {|g| {|nm, hello: g| hello + nm}}\nmk(\"Yo \")(\"B\").p"},
 		}
